@@ -90,6 +90,9 @@ impl<'a> Quoted<'a> {
         while self.cur.is_some() {
             match self.cur {
                 None => return Err(Error::Unquoting("found early EOF".into())),
+                Some('\0') => {
+                    return Err(Error::Unquoting("\\0 character not allowed".into()))
+                }
                 Some('\'' | '"')
                     if quote.is_none()
                         && (result.ends_with([' ', '\t', '\n']) || result.is_empty()) =>
